@@ -55,6 +55,8 @@ type interp struct {
 	tickers    []*channel
 	promNames  map[string]string
 	skls       map[*value]*sklModel
+	httpHandler value
+	flights    map[*value]*sfCall
 	bigTaken   [][]value
 	lazyCells  []*value
 }
